@@ -9,6 +9,7 @@ import Tahoe.Dir.PackLemmas
 |---|---|
 | "through a read-only directory capability, every child … is obtained with read-only (or weaker) authority" | `ro_children_ro`, `createFromCap_none_rw` on the unpack model of C19 (`_unpack_contents` with `writeable = False`, `create_from_cap(None, ro_uri)`): no write cap on any child, for every packed entry whose ro slot holds what packing writes there |
 | "… and every descendant" | `read_only_is_transitive` (induction along any path of handles) |
+| a blacklisted child (`ProhibitedNode`) re-packed while prohibited (seeded C18-e) | `prohibited_repack_keeps_writecap_encrypted` (the wrapper's accessors as packing sees them: `prohibitedView`, tied by the `packp` correspondence) + monitor |
 | the node cache must not hand a writeable node to a read-only parent (seeded C18-a) | **monitor only** (cold / warm walks with write attempts); the model has no cache |
 | "the directory contents a read-cap holder can decrypt do not reveal any child's write-cap" | `readcap_cannot_derive_child_writecap` (Dolev–Yao: read cap + all packed entries ⊬ any secret write cap), `derivable_good`; a cap given only as write authority never reaches a clear-text slot: `rw_only_cap_never_in_ro_slot`, `lone_unknown_cap_is_not_packed` |
 | per-child salt / key (no key-stream reuse between siblings, seeded C18-b) | the symbolic entry has `salt = H(rw_uri)` per child (`encryptRwUri`); key-stream xor is outside a symbolic model: **correspondence** (every rwcapdata recomputed) **+ monitor** (sibling-xor adversary) |
@@ -179,6 +180,21 @@ theorem lone_unknown_cap_is_not_packed {Name J Key : Type} [DecidableEq Name] (W
 example : (createFromCap (fun _ => .unknown) (some [108, 97]) none false).err = true ∧
     (createFromCap (fun _ => .unknown) (some (roPrefix ++ [108, 97])) none false).ro = some (roPrefix ++ [108, 97]) := by
   decide
+
+/-- **Re-packing a blacklisted child keeps its write cap encrypted.**  A child wrapped in `ProhibitedNode`
+    (its storage index is in the client's `access.blacklist`) is packed from the wrapper's accessors, which
+    delegate to the wrapped node: the entry written for it — by a rename, `set_metadata_for`, `set_node` of the
+    listed node, a copy of the listing — is byte for byte the entry of the wrapped node: the `ro_uri` slot holds
+    the wrapped node's read-only URI and the write cap goes only into the encrypted rwcapdata field. -/
+theorem prohibited_repack_keeps_writecap_encrypted {Name J Key : Type} [DecidableEq Name] (W : World Name J Key)
+    (key : Option Key) (dI : Bool) (name : Name) (wrapped : Node) (md : J) (a a' : Option Bytes) :
+    entryBytes W key dI name ⟨prohibitedView wrapped, md, a⟩ = entryBytes W key dI name ⟨wrapped, md, a'⟩ ∧
+    (prohibitedView wrapped).ro = wrapped.ro ∧ (prohibitedView wrapped).rw = wrapped.rw := ⟨rfl, rfl, rfl⟩
+
+/-- … so what `ro_children_ro` and `rw_only_cap_never_in_ro_slot` say about the clear-text slot holds for it as for
+    any known node: a known mutable node's read slot is its read-only form, never its write cap. -/
+example : (prohibitedView ⟨false, some [87], some [82], true, false⟩).ro = some [82] ∧
+    (prohibitedView ⟨false, some [87], some [82], true, false⟩).err = false := by decide
 
 /-- **Children of a read-only directory are read-only.**  Every child that `_unpack_contents` returns through
     a read-only parent (`writeable = False`: rw_uri forced empty, node created from the ro slot alone) — for any
